@@ -240,12 +240,51 @@ def cases(ctx):
 
 
 def run_case(ctx, case: dict) -> None:
+    if case.get("kind") == "vanished-child":
+        from .. import harness
+        from ..harness import run as arun
+        from .c12 import vanished_child_case
+
+        harness.CONFIG_EXTRA.clear()
+        harness.CONFIG_EXTRA.update(case.get("config_extra") or {})
+        try:
+            arun(vanished_child_case(ctx, case))
+        finally:
+            harness.CONFIG_EXTRA.clear()
+        return
     replay_case(ctx, case)
+
+
+def release_despite_stale_neighbours(ctx) -> None:
+    """'Written when that node next announces it is awake': also when ANOTHER command parked for the same node has become
+    stale (its child was removed from the registry / not presented again) - under the default configuration and under
+    every Config option this harness does not know.  (Shares the scenario with C12; here the released command is C07's.)"""
+    import itertools
+
+    from .. import harness
+    from ..harness import run as arun
+    from .c12 import vanished_child_case
+
+    index = 0
+    for extra in [{}, *harness.unknown_options()]:
+        for version in ("2.0", "2.1", "2.2"):
+            for how, stale_first in itertools.product(("child-removed", "re-presented"), (True, False)):
+                index += 1
+                if not ctx.mine(index):
+                    continue
+                harness.CONFIG_EXTRA.clear()
+                harness.CONFIG_EXTRA.update(extra)
+                try:
+                    arun(vanished_child_case(ctx, {"kind": "vanished-child", "version": version, "how": how,
+                                                   "stale_first": stale_first, "config_extra": extra}))
+                finally:
+                    harness.CONFIG_EXTRA.clear()
 
 
 def run(ctx) -> None:
     with Reach(ANCHORS) as reach:
         run_cases(ctx, cases(ctx))
+        release_despite_stale_neighbours(ctx)
     reach.into(ctx)
     for clause in ("wake-flush", "send-set"):
         ctx.require(clause, 100)
